@@ -192,6 +192,7 @@ def oracle_items(ctx, n, salt):
             q = r.sample(paras, len(paras))
             variants.append(rg.single(rg.EXT_PRINT + "\n\n".join(q) + "\n", False))
         items.append({"cls": "init-through-function-values", "variants": variants, "must_accept": True})
+    items += module_start_items(ctx, max(12, n // 4), salt)
     for i in range(n):
         r = vlib.rng(ctx.seed, "%s-graph-%d" % (salt, i))
         src = cyclic_program(r)
@@ -202,6 +203,99 @@ def oracle_items(ctx, n, salt):
             q = list(perms[r.randrange(len(perms))]) if perms else r.sample(paras, len(paras))
             variants.append(rg.single(rg.EXT_PRINT + "\n\n".join(q) + "\n", False))
         items.append({"cls": "dependency-graph", "variants": variants})
+    return items
+
+
+def module_start_items(ctx, n, salt):
+    """imported modules that define their own `start` (and `limit`, `helper`: the names main uses for its own
+    globals), referred to from main's functions and global initialisers through the namespace (called, stored as
+    a function value, or only mentioned in a function nobody calls), also from a second module and back from
+    the module to main.  Variant 0 is the single-file program with the modules' globals renamed; the others are
+    the project with the statements of every file in random orders (and the two orders that put the reference to
+    the module's start first / last in main): the program that runs is main's start in every order."""
+    items = []
+    for i in range(n):
+        r = vlib.rng(ctx.seed, "%s-modstart-%d" % (salt, i))
+        nlib = r.randint(1, 2)
+        libs = []
+        for j in range(nlib):
+            kind = r.choice(["file", "alias", "folder"])
+            stem = ["lib", "tool"][j]
+            path = "/%s/exports.sy" % stem if kind == "folder" else "/%s.sy" % stem
+            ns = ("l%d" % j) if kind == "alias" else stem
+            use = "use %s%s" % (stem + "/" if kind == "folder" else stem, " as " + ns if kind == "alias" else "")
+            libs.append({"stem": stem, "path": path, "ns": ns, "use": use, "val": r.randint(10, 99)})
+        mval = r.randint(1, 9)
+        # how main refers to each module's start
+        main_pars = ["limit :: %d" % mval]
+        single = ["limit :: %d" % mval]
+        calls = []
+        for L in libs:
+            ns, st = L["ns"], L["stem"]
+            # (at most one initialiser with a visible effect per project: the order of two independent ones is
+            # the recorded finding initialiser-effects-run-in-definition-order, not what this family is about)
+            how = r.choice(["call-in-fn", "uncalled-fn", "value-global"]
+                           + ([] if any(x.get("how") == "call-in-init" for x in libs) else ["call-in-init"]))
+            L["how"] = how
+            if how == "call-in-fn":
+                main_pars.append("restart_%s :: fn do\n    %s.start()\nend" % (st, ns))
+                single.append("restart_%s :: fn do\n    %s_start()\nend" % (st, st))
+                calls.append("    restart_%s()" % st)
+            elif how == "uncalled-fn":
+                main_pars.append("restart_%s :: fn do\n    %s.start()\nend" % (st, ns))
+                single.append("restart_%s :: fn do\n    %s_start()\nend" % (st, st))
+            elif how == "value-global":
+                main_pars.append("again_%s :: %s.start" % (st, ns))
+                single.append("again_%s :: %s_start" % (st, st))
+                if r.random() < 0.5:
+                    calls.append("    again_%s()" % st)
+            else:
+                main_pars.append("ran_%s :: once_%s()" % (st, st))
+                main_pars.append("once_%s :: fn -> int do\n    %s.start()\n    ret %s.limit\nend" % (st, ns, ns))
+                single.append("ran_%s :: once_%s()" % (st, st))
+                single.append("once_%s :: fn -> int do\n    %s_start()\n    ret %s_limit\nend" % (st, st, st))
+                calls.append("    print(ran_%s)" % st)
+        main_pars.append("helper :: fn -> int do\n    ret limit + %s\nend" % " + ".join(
+            "%s.helper() + %s.limit" % (L["ns"], L["ns"]) for L in libs))
+        single.append("helper :: fn -> int do\n    ret limit + %s\nend" % " + ".join(
+            "%s_helper() + %s_limit" % (L["stem"], L["stem"]) for L in libs))
+        body = "start :: fn do\n    print(\"main\")\n    print(helper())\n%s\nend" % "\n".join(calls or ["    print(limit)"])
+        main_pars.append(body)
+        single.append(body)
+        files = {}
+        back = r.random() < 0.4
+        for j, L in enumerate(libs):
+            st = L["stem"]
+            pars = [rg.EXT_PRINT.strip(), "limit :: %d" % L["val"],
+                    "helper :: fn -> int do\n    ret limit * 2\nend",
+                    "start :: fn do\n    print(\"%s\")\n    print(limit)\nend" % st]
+            single += ["%s_limit :: %d" % (st, L["val"]), "%s_helper :: fn -> int do\n    ret %s_limit * 2\nend" % (st, st),
+                       "%s_start :: fn do\n    print(\"%s\")\n    print(%s_limit)\nend" % (st, st, st)]
+            if j == 1 and r.random() < 0.6:
+                # the second module refers to the first one's start as well
+                up = "/" if L["path"].count("/") > 1 else ""
+                first = libs[0]
+                pars += ["use %s%s as other" % (up, first["stem"] + ("/" if first["path"].endswith("exports.sy") else "")),
+                         "chain :: fn do\n    other.start()\nend"]
+                single.append("%s_chain :: fn do\n    %s_start()\nend" % (st, first["stem"]))
+            if back and j == 0:
+                up = "/" if L["path"].count("/") > 1 else ""
+                pars += ["use %smain as top" % up, "kick :: fn do\n    top.start()\nend"]
+                single.append("%s_kick :: fn do\n    start()\nend" % st)
+            L["pars"] = pars
+        main_all = [rg.EXT_PRINT.strip()] + [L["use"] for L in libs] + main_pars
+        variants = [rg.single(rg.EXT_PRINT + "\n\n".join(single) + "\n", False)]
+        refs = [q for q in main_all if ".start" in q]
+        rest = [q for q in main_all if ".start" not in q]
+        orders = [refs + rest, rest + refs]
+        for _ in range(4):
+            orders.append(r.sample(main_all, len(main_all)))
+        for o in orders:
+            files = {"/main.sy": "\n\n".join(o) + "\n"}
+            for L in libs:
+                files[L["path"]] = "\n\n".join(r.sample(L["pars"], len(L["pars"]))) + "\n"
+            variants.append(rg.case(files, "/main.sy", False))
+        items.append({"cls": "module-start", "variants": variants, "hows": [L["how"] for L in libs]})
     return items
 
 
@@ -303,7 +397,10 @@ def always(ctx):
                            "of its top-level statements (single file; multi-file layouts permuted inside every file) -> "
                            "same accept/reject (same error kind) and same trace; three generator streams (pure "
                            "initialisers / initialisers calling printing functions / functions assigning globals) and "
-                           "random dependency graphs with and without cycles (all 24 orders sampled when <= 4 statements)"}
+                           "random dependency graphs with and without cycles (all 24 orders sampled when <= 4 statements); "
+                           "projects whose imported modules define their own `start` / `limit` / `helper`, referred to from main "
+                           "through the namespace: the single-file program with the modules' globals renamed vs the project "
+                           "with every file's statements permuted (6 orders) -> same trace (main's start runs)"}
 
 
 def describe(it, v, c, k):
